@@ -212,9 +212,10 @@ func run(t *core.Tape, st *core.Stats) *core.Violation {
 
 	// write detector state: one slot per task, written only by that task
 	type detect struct {
-		step int
-		what string
-		op   int
+		step   int
+		global int
+		what   string
+		op     int
 	}
 
 	var found [sched.MaxTasks]detect
@@ -232,7 +233,7 @@ func run(t *core.Tape, st *core.Stats) *core.Violation {
 		}
 
 		if d := base.diff(fp(shared, false)); d != "" && !strings.HasPrefix(d, "content") {
-			found[task] = detect{step: stepNo[task], what: d, op: curOp[task]}
+			found[task] = detect{step: stepNo[task], global: sched.StepNo(), what: d, op: curOp[task]}
 		}
 
 		if inRels[task] {
@@ -253,7 +254,7 @@ func run(t *core.Tape, st *core.Stats) *core.Violation {
 			// full content check at operation boundaries
 			if found[task].what == "" {
 				if d := base.diff(fp(shared, true)); d != "" {
-					found[task] = detect{step: stepNo[task], what: d, op: j}
+					found[task] = detect{step: stepNo[task], global: sched.StepNo(), what: d, op: j}
 				}
 			}
 		}
@@ -316,8 +317,19 @@ func run(t *core.Tape, st *core.Stats) *core.Violation {
 	}
 
 	// O2 write detector
+	first := -1
+
 	for i := 0; i < cfg.Tasks; i++ {
-		if found[i].what != "" {
+		if found[i].what != "" && (first < 0 || found[i].global < found[first].global) {
+			first = i
+		}
+	}
+
+	if first >= 0 {
+		// the task that was running when the change was first observed made it:
+		// exactly one task runs at a time and the check follows every step
+		i := first
+		{
 			o := tasks[i][found[i].op]
 
 			return viol("schema-unchanged", o.kind, "shared-write", "the shared schema changed while task %d ran %s (its step %d): %s\n    before: %s\n    after:  %s",
